@@ -1,14 +1,14 @@
-\* two plans on one Workstream, two callers, up to 5 calls, one crash
+\* two plans on one Workstream whose vault writes its search index in a second step (cosmosdb), two callers, up to 4 calls, one crash
 SPECIFICATION Spec
 CONSTANTS
   Plans <- P2
   Callers <- C2
-  MaxCalls = 5
+  MaxCalls = 4
   MaxCrashes = 1
   RecoveryModes <- BothModes
   Ops <- CoreOps
   Aging = FALSE
-  TwoStep = FALSE
+  TwoStep = TRUE
 VIEW view
 INVARIANTS TypeOK OneRunner RunnerRegistered NoPanic AtMostOnce StartOnce MutexInv WaitTruth StaleRejected IndexLags
 PROPERTIES StartedFromNS TerminalStable OnlyRunningResumed
